@@ -105,7 +105,8 @@ class C05:
                "RuntimeError / EmulatorError / RecursionError are compared as the class OtherError (not in the shared enum)"]
     ASSUMPTIONS = ["settings.sampler_probability_threshold = 1e-9 (default); theorems about the Sampler are stated for threshold 0",
                    "error_rate: a zero row of the analyzer array gives nan in the code (no guard); compared as nan, skipped when a row total < 1e-6",
-                   "QuickSampler with threshold detectors and a vacuum input raises ValueError (the code keeps max(s) == 1, not <= 1); recorded, not flagged"]
+                   "a state repeated inside an `expected` list: the oracle uses the SET of expected outputs (property text); the code subtracts per "
+                   "occurrence: flagged with signature analyzer-error-rate-duplicate-expected"]
 
     # ------------------------------------------------------------------ generation
     def _support(self, prog, cid, inp):
@@ -151,7 +152,7 @@ class C05:
 
     def generate(self, rng, tier):
         quick = tier == "quick"
-        n = 480 if quick else 6000
+        n = 900 if quick else 18000
         maxph = 3 if quick else 4
         cases = []
         for i in range(n):
@@ -503,15 +504,17 @@ class C05:
             if er == []:
                 return "expected mapping given but the result has no error_rate"
             emap = {tuple(k): exp_list(v) for k, v in c["expected"]}
-            dup = any(len(set(map(tuple, v))) != len(v) for v in emap.values())
-            if not dup and min(rowtot) >= 1e-6:
+            if min(rowtot) >= 1e-6:
                 fr = []
                 for i, s in enumerate(ins):
-                    good = sum(samp[i][0].get(full_out(o), 0.0) for o in emap[tuple(s)] if list(o) in outs)
+                    want = {tuple(o) for o in emap[tuple(s)]}        # a SET of expected outputs
+                    good = sum(samp[i][0].get(full_out(list(o)), 0.0) for o in want if list(o) in outs)
                     fr.append(good / rowtot[i])
                 eref = 1 - sum(fr) / len(fr)
                 if er[0] != 1 or abs(er[1] - eref) > 1e-7 + tol * len(outs) / min(rowtot):
-                    return f"Analyzer error_rate {er}, one minus the accepted-and-expected fraction from the Sampler {eref!r}"
+                    dup = any(len(set(map(tuple, v))) != len(v) for v in emap.values())
+                    return (f"Analyzer error_rate {er}, one minus the accepted-and-expected fraction from the Sampler {eref!r}"
+                            + (" (an expected list repeats a state)" if dup else ""))
         elif er != []:
             return "no expected mapping given but the result carries an error_rate"
         return None
@@ -549,8 +552,6 @@ class C05:
                 if "ok" not in r:
                     if raises and r["err"] == "IndexError":
                         continue
-                    if not pc and sum(q) == 0:
-                        continue      # recorded: threshold detection on a vacuum input is refused (max(s) == 1)
                     if tot > 1e-6:
                         return (f"{tag} raises {r['err']} although the Sampler gives the heralded, post-selected, "
                                 f"loss-free outputs a total probability {tot!r}")
@@ -611,7 +612,14 @@ class C05:
             yield d
 
     def signature(self, c, rec):
-        return None      # no known finding: F6 (35b3f09) and N14 (e8102ee) are repaired
+        """finding: a state repeated in an `expected` list is subtracted once per occurrence. Only when this is the ONLY
+        failure of the case, the model agrees with the implementation, and the case really has such a repetition."""
+        text = rec.get("oracle") or ""
+        if rec.get("diff") or " ;; " in text:
+            return None
+        if text.startswith("Analyzer error_rate") and text.endswith("(an expected list repeats a state)"):
+            return "analyzer-error-rate-duplicate-expected"
+        return None
 
 
 PROP = C05()
